@@ -45,7 +45,7 @@ LEVEL_TEXT = (
     "require_all x {allow, require} x inner kinds (exhaustive lists) plus seeded random trees of depth <= 3, each under the product of "
     "relevant credential states and a rotating set of Accept headers, are executed in the real WSGI app and compared with a model "
     "written from unauthorized-spec.md; the real client is driven against those apps and against arbitrary 401 bodies. Held means no "
-    "disagreement on the executions listed."
+    "disagreement on the executions listed. Outage leaves raise AuthUnavailableError with integer, default, zero, float, negative and huge retry hints."
 )
 LEVEL_NOTE = (
     "model trusted (lib/models/unauthorized.py); proofs minted by an independent minter; HTML page content not parsed (spec: presentation only); "
